@@ -283,13 +283,34 @@ func AnalyzePool(p *load.Program, r *Roles, depth int) *UnitResult {
 				if g, ok := ins.(*ssa.Go); ok {
 					goSites++
 					if goFn != r.FnNewWorkerPool || fn == r.FnNewWorkerPool {
-						goInstr, goFn = g, fn // the constructor's go statement wins as "the" spawn site
+						if goFn == nil || fn == r.FnNewWorkerPool || strings.HasPrefix(fn.Name(), "New") {
+							goInstr, goFn = g, fn // a constructor's go statement wins as "the" spawn site
+						}
 					}
 				}
 			}
 		}
 	}
-	okGo := goSites == 1 && goFn == r.FnNewWorkerPool
+	// the spawn site belongs to the constructor: in NewWorkerPool itself, or in a function it
+	// calls (a shared constructor body such as NewWorkerPoolWithQueue), which the engine inlines
+	var staticallyCalls func(from, to *ssa.Function, depth int) bool
+	staticallyCalls = func(from, to *ssa.Function, depth int) bool {
+		if from == nil || to == nil || depth < 0 {
+			return false
+		}
+		for _, b := range from.Blocks {
+			for _, ins := range b.Instrs {
+				if ci, ok := ins.(ssa.CallInstruction); ok {
+					if g := ci.Common().StaticCallee(); g != nil && g.Pkg == p.SSA && (g == to || staticallyCalls(g, to, depth-1)) {
+						return true
+					}
+				}
+			}
+		}
+		return false
+	}
+	ctorOwns := goFn != nil && (goFn == r.FnNewWorkerPool || staticallyCalls(r.FnNewWorkerPool, goFn, 2))
+	okGo := goSites == 1 && ctorOwns
 	where := ""
 	if goInstr != nil {
 		where = posStr(p.Position(goInstr.Pos()))
@@ -324,6 +345,37 @@ func AnalyzePool(p *load.Program, r *Roles, depth int) *UnitResult {
 			}
 		}
 		reach(sub)
+		// any other function that queues onto a channel of the pool is a submitter too (TrySubmit,
+		// SubmitContext, ...): whether it counts correctly is for the rules of Submit-like
+		// functions; here only the worker side and bystanders are excluded
+		poolChan := func(v ssa.Value) bool {
+			if u, ok := v.(*ssa.UnOp); ok {
+				if fa, ok := u.X.(*ssa.FieldAddr); ok {
+					if pt, ok := fa.X.Type().Underlying().(*types.Pointer); ok && r.WorkerPool != nil && types.Identical(pt.Elem(), r.WorkerPool) {
+						return true
+					}
+				}
+			}
+			return false
+		}
+		for _, fn := range p.AllFunctions() {
+			for _, b := range fn.Blocks {
+				for _, ins := range b.Instrs {
+					switch x := ins.(type) {
+					case *ssa.Send:
+						if poolChan(x.Chan) {
+							reach(fn)
+						}
+					case *ssa.Select:
+						for _, st := range x.States {
+							if st.Dir == types.SendOnly && poolChan(st.Chan) {
+								reach(fn)
+							}
+						}
+					}
+				}
+			}
+		}
 		isWG := func(f *ssa.Function) bool {
 			n := eng.CalleeName(f)
 			return n == "(*sync.WaitGroup).Done" || n == "(*sync.WaitGroup).Add"
@@ -521,7 +573,7 @@ func AnalyzePool(p *load.Program, r *Roles, depth int) *UnitResult {
 	}
 
 	// ---- NewWorkerPool -----------------------------------------------------------
-	if fn := r.FnNewWorkerPool; fn != nil && len(fn.Params) == 1 && goInstr != nil && goFn == fn {
+	if fn := r.FnNewWorkerPool; fn != nil && len(fn.Params) == 1 && goInstr != nil && ctorOwns {
 		workers := eng.Param(0, fn.Params[0].Name())
 		mon := &poolMon{name: "ctor", init: func() eng.MState { return kvState{s: "0", terms: []*eng.Term{nil}} }}
 		mon.on = func(c *eng.Ctx, ms eng.MState, ev *eng.Event) eng.MState {
@@ -614,7 +666,7 @@ func AnalyzePool(p *load.Program, r *Roles, depth int) *UnitResult {
 		}
 		e := run(fn, nil, mon)
 		// static arithmetic of the spawn loop
-		fi := e.InfoOf(fn)
+		fi := e.InfoOf(goFn)
 		if l := fi.LoopOf(goInstr.Block()); l != nil {
 			msg, ok := retryLoopCount(fi, l, goInstr.Block())
 			msg = strings.ReplaceAll(strings.ReplaceAll(msg, "exec attempt", "worker start"), "attempts", "workers")
@@ -704,6 +756,10 @@ func AnalyzePool(p *load.Program, r *Roles, depth int) *UnitResult {
 			root = root.Parent()
 		}
 		if root == r.FnNewWorkerPool || (root.Signature.Recv() != nil && recvName(root.Signature.Recv().Type()) == "WorkerPool") {
+			allowed[fn] = true
+		}
+		// another constructor of the pool (a package function returning *WorkerPool)
+		if res := root.Signature.Results(); root.Signature.Recv() == nil && res.Len() == 1 && isNamedPtr(res.At(0).Type(), r.WorkerPool) {
 			allowed[fn] = true
 		}
 	}
